@@ -208,6 +208,15 @@ PROPS = {
             dict(name="VerifObjectKeyInput", opts=dict(unwind=300)),
         ],
     ),
+    "C23": dict(
+        pkg=PD,
+        explanation="the generic object writer with an encryption key set (writeObjectGeneric -> writeStringLiteralObject / writeHexLiteralObject / writeDictObject / writeArrayObject / writeDeepStreamDict + writeStreamDictObject + writeStream, sigDictPDFString) executed symbolically with the cipher cores abstracted as in C22: for every object kind (string, hex string, dictionary and array with nested strings, stream with a string in its dictionary, signature dictionary), symbolic string / stream bytes, RC4-40, revision 4 with every combination of RC4/AES for strings and streams, AES-256, the bytes written are parsed back by the strict object parser and decrypted with the same key and object number and must give the original strings and stream data; AES ciphertext must have the shape IV + whole blocks; /Length must be the number of stream bytes written; the /Contents of a signature dictionary must be written in the clear. A string or stream left in the clear, or encrypted under another key, decrypts to something else and is a counterexample",
+        outside="whole documents: which objects reach writeObjectGeneric at all (object streams are encrypted as streams when they are written, checked for the stream path only), the identity crypt filter, unencrypted metadata (EncryptMetadata false), the xref stream (unencrypted by specification), embedded-file crypt filters; 'no plaintext' as a statement about real AES/RC4 output; strings longer than 1 byte, streams longer than 2 bytes",
+        assumptions=["abstract ciphers as in C22 (pads are non-zero for the keys used, so an unencrypted string cannot decrypt to itself); natively the real ciphers run"],
+        harnesses=[
+            dict(name="VerifEncryptedWrite", opts=dict(unwind=2000, wall_timeout=6000)),
+        ],
+    ),
     "C25": dict(
         pkg=PD,
         explanation="setupEncryptionKey (the open/refuse decision) executed symbolically over all outcomes of the three cryptographic validators (symbolic booleans), every CommandMode value, all 2^32 permission words, R in 2..6 and password emptiness",
